@@ -30,9 +30,19 @@ Tree::~Tree() {
     }
     // Special case if this tree isn't being freed here: we return early
     // to avoid allocating data on the heap.
+#ifdef LIBFIVE_VERIF
+    {   // Same decrement, reporting the observed (old) value: kind 2
+        const uint32_t verif_new = --ptr->refcount;
+        LIBFIVE_VERIF_POINT(verif::SITE_TREE_STEP, 2, verif_new + 1, ptr);
+        if (verif_new) {
+            return;
+        }
+    }
+#else
     if (--ptr->refcount) {
         return;
     }
+#endif
 
     std::stack<const Data*> todo;
     todo.push(ptr);
@@ -42,7 +52,17 @@ Tree::~Tree() {
         // If this was the last remaining reference to this tree, then
         // empty it out (so that its destructor doesn't recurse) and add
         // its children to the queue for refcount subtraction.
+#ifdef LIBFIVE_VERIF
+        bool verif_last = (t == ptr);
+        if (!verif_last) {
+            const uint32_t verif_new = --t->refcount;
+            LIBFIVE_VERIF_POINT(verif::SITE_TREE_STEP, 2, verif_new + 1, t);
+            verif_last = !verif_new;
+        }
+        if (verif_last) {
+#else
         if (t == ptr || !--t->refcount) {
+#endif
             // Move the children out of the Tree, adding them to the queue
             // before deleting the tree (to prevent recursion).  We use
             // std::exchange to steal the pointer out from the tree; we'll
@@ -78,7 +98,13 @@ Tree::Tree(const Data* d, bool increment_refcount, uint32_t flags)
     : ptr(d), flags(flags)
 {
     if (d && increment_refcount) {
+#ifdef LIBFIVE_VERIF
+        // Same increment, reporting the observed (old) value: kind 1
+        const uint32_t verif_old = d->refcount++;
+        LIBFIVE_VERIF_POINT(verif::SITE_TREE_STEP, 1, verif_old, d);
+#else
         d->refcount++;
+#endif
     }
 }
 
